@@ -234,13 +234,18 @@ Lemma c19_up4_exact (meth : string) (d : doc) (slice_id tc : N) :
   let cd := calculate_bit_rates (d_dl d) (d_unit d) in
   r_writes (serve (Up4 slice_id tc) meth (Decoded d)) =
   [ WUp4 (MeterWrite 2 336833095 (Z.of_N (4 * slice_id + tc)) 0 0
-            (int64_of_uint64 (N.max cu cd)) (int64_of_uint64 (if cd <? cu then d_ulb d else d_dlb d))) ].
+            (int64_of_uint64 (N.max cu cd))
+            (Z.of_N (N.min (if cd <? cu then d_ulb d else d_dlb d) (2 ^ 63 - 1)))) ].
 Proof.
   intros H Hs Ht cu cd. rewrite serve_decoded by assumption. cbn [r_writes add_slice_info].
   unfold up4_add_slice_info, slice_info_of. cbn [s_ul s_dl s_ulb s_dlb]. fold cu cd.
   rewrite meter_index_ok by assumption.
   rewrite (Z.mod_small (Z.of_N (4 * slice_id + tc)) (2 ^ 32)) by lia.
-  destruct (N.ltb_spec cd cu) as [L|L]; cbn [map].
+  assert (C : forall b : N, int64_of_uint64 (if max_int64 <? b then max_int64 else b) = Z.of_N (N.min b (2 ^ 63 - 1))).
+  { intros b. unfold max_int64. destruct (N.ltb_spec (2 ^ 63 - 1) b).
+    - rewrite N.min_r by lia. apply int64_small. lia.
+    - rewrite N.min_l by lia. apply int64_small. lia. }
+  destruct (N.ltb_spec cd cu) as [L|L]; cbn [map]; rewrite C.
   - now rewrite N.max_l by lia.
   - now rewrite N.max_r by lia.
 Qed.
@@ -258,41 +263,36 @@ Qed.
 Lemma c19_programs_up4 (meth : string) (d : doc) (slice_id tc : N) :
   meth = "PUT"%string \/ meth = "POST"%string -> slice_id < 16 -> tc < 4 ->
   rate_ok (d_ul d) (d_unit d) -> rate_ok (d_dl d) (d_unit d) ->
-  d_ulb d < 2 ^ 63 -> d_dlb d < 2 ^ 63 ->
   serve (Up4 slice_id tc) meth (Decoded d) =
   Result [201]
          (up4_meter_spec slice_id tc (d_ul d * unit_of (d_unit d)) (d_dl d * unit_of (d_unit d))
                          (d_ulb d) (d_dlb d))
          (Some (stored_spec d (d_ul d * unit_of (d_unit d)) (d_dl d * unit_of (d_unit d)))).
 Proof.
-  intros H Hs Ht Ru Rd Bu Bd.
+  intros H Hs Ht Ru Rd.
   pose proof (c19_up4_exact meth d slice_id tc H Hs Ht) as W. cbv zeta in W.
   rewrite serve_decoded in * by assumption. cbn [r_writes] in W. rewrite W.
   unfold slice_info_of, up4_meter_spec, stored_spec.
   rewrite (c19_units _ _ Ru), (c19_units _ _ Rd).
   destruct Ru as [_ Fu], Rd as [_ Fd].
   rewrite (int64_small (N.max _ _)) by lia.
-  set (c := d_dl d * unit_of (d_unit d) <? d_ul d * unit_of (d_unit d)).
-  rewrite (int64_small (if c then _ else _)) by (destruct c; assumption).
   reflexivity.
 Qed.
 
 Definition put_post (meth : string) : Prop := meth = "PUT"%string \/ meth = "POST"%string.
 
-(* the statement without the bound on the bursts is false: MeterConfig.pburst is an int64 *)
-Lemma c19_programs_up4_refuted :
-  exists (meth : string) (d : doc) (slice_id tc : N),
-    put_post meth /\ wf_doc d /\ slice_id < 16 /\ tc < 4 /\
-    rate_ok (d_ul d) (d_unit d) /\ rate_ok (d_dl d) (d_unit d) /\
-    r_writes (serve (Up4 slice_id tc) meth (Decoded d)) <>
-    up4_meter_spec slice_id tc (d_ul d * unit_of (d_unit d)) (d_dl d * unit_of (d_unit d))
-                   (d_ulb d) (d_dlb d).
+(* pburst is never negative and is the posted burst whenever that fits in an int64 *)
+Lemma c19_up4_burst_carried (meth : string) (d : doc) (slice_id tc : N) :
+  meth = "PUT"%string \/ meth = "POST"%string -> slice_id < 16 -> tc < 4 ->
+  exists m, r_writes (serve (Up4 slice_id tc) meth (Decoded d)) = [WUp4 m] /\
+    (0 <= m_pburst m < 2 ^ 63)%Z /\
+    let b := if calculate_bit_rates (d_dl d) (d_unit d) <? calculate_bit_rates (d_ul d) (d_unit d)
+             then d_ulb d else d_dlb d in
+    (b < 2 ^ 63 -> m_pburst m = Z.of_N b) /\ (2 ^ 63 <= b -> m_pburst m = (2 ^ 63 - 1)%Z).
 Proof.
-  exists "POST"%string, (Doc "s" 1 1 "Mbps" 1000 (2 ^ 63) []), 0, 3.
-  split; [now right|]. split; [unfold wf_doc; cbn; lia|].
-  split; [lia|]. split; [lia|].
-  split; [unfold rate_ok; cbn; lia|]. split; [unfold rate_ok; cbn; lia|].
-  vm_compute. discriminate.
+  intros H Hs Ht. pose proof (c19_up4_exact meth d slice_id tc H Hs Ht) as W. cbv zeta in W.
+  eexists. split; [exact W|]. cbn [m_pburst]. cbv zeta.
+  set (b := if _ <? _ then d_ulb d else d_dlb d). lia.
 Qed.
 
 Lemma c19_error_untouched (dp : datapath) (meth : string) (b : body) :
@@ -320,4 +320,84 @@ Proof.
   - destruct b; eexists; (split; [reflexivity|]);
       try (right; repeat split; (lia || reflexivity)). now left.
   - eexists; split; [reflexivity|]. right. repeat split; (lia || reflexivity).
+Qed.
+
+(* ---------------------------------------------------------------- histories *)
+Lemma serve_st_serve (st : state) (dp : datapath) (meth : string) (b : body) :
+  fst (serve_st st dp meth b) = serve dp meth b.
+Proof. unfold serve_st, serve. destruct (accepts meth); [destruct b|]; reflexivity. Qed.
+
+Lemma c19_history_independent (st st' : state) (dp : datapath) (meth : string) (b : body) :
+  fst (serve_st st dp meth b) = fst (serve_st st' dp meth b) /\
+  fst (serve_st st dp meth b) = serve dp meth b.
+Proof. now rewrite !serve_st_serve. Qed.
+
+Lemma serve_st_state (st : state) (dp : datapath) (meth : string) (b : body) :
+  snd (serve_st st dp meth b) =
+  match r_stored (serve dp meth b) with Some s => Some s | None => st end.
+Proof. unfold serve_st, serve. destruct (accepts meth); [destruct b|]; reflexivity. Qed.
+
+Lemma run_results (st : state) (dp : datapath) (reqs : list request) :
+  fst (run st dp reqs) = map (fun q => serve dp (q_meth q) (q_body q)) reqs.
+Proof.
+  revert st. induction reqs as [|q rest IH]; intros st; [reflexivity|].
+  cbn [run map]. pose proof (serve_st_serve st dp (q_meth q) (q_body q)) as E.
+  destruct (serve_st st dp (q_meth q) (q_body q)) as [r st1]. cbn [fst] in E.
+  specialize (IH st1). destruct (run st1 dp rest) as [rs st2]. cbn [fst] in *. now rewrite E, IH.
+Qed.
+
+Lemma run_app (st : state) (dp : datapath) (a b : list request) :
+  run st dp (a ++ b) =
+  (fst (run st dp a) ++ fst (run (snd (run st dp a)) dp b), snd (run (snd (run st dp a)) dp b)).
+Proof.
+  revert st. induction a as [|q rest IH]; intros st.
+  - cbn. now destruct (run st dp b).
+  - cbn [app run]. destruct (serve_st st dp (q_meth q) (q_body q)) as [r st1].
+    rewrite IH. destruct (run st1 dp rest) as [rs st2]. cbn [fst snd]. reflexivity.
+Qed.
+
+(* a request that is refused (unreadable / malformed body, or another method) *)
+Definition refused_request (q : request) : Prop :=
+  q_body q = Unreadable \/ q_body q = Malformed \/
+  (q_meth q <> "PUT"%string /\ q_meth q <> "POST"%string).
+
+Lemma refused_no_effect (dp : datapath) (q : request) : refused_request q ->
+  r_writes (serve dp (q_meth q) (q_body q)) = [] /\ r_stored (serve dp (q_meth q) (q_body q)) = None.
+Proof.
+  intros [H | [H | [H1 H2]]].
+  - apply (c19_error_untouched dp (q_meth q) (q_body q)). now left.
+  - apply (c19_error_untouched dp (q_meth q) (q_body q)). now right.
+  - rewrite c19_other_methods by assumption. split; reflexivity.
+Qed.
+
+Lemma c19_refused_keeps (st : state) (dp : datapath) (reqs : list request) (q : request) (m : list write) :
+  refused_request q ->
+  snd (run st dp (reqs ++ [q])) = snd (run st dp reqs) /\
+  meter_after m (fst (run st dp (reqs ++ [q]))) = meter_after m (fst (run st dp reqs)).
+Proof.
+  intros R. destruct (refused_no_effect dp q R) as [W S].
+  rewrite run_app. cbn [fst snd run].
+  pose proof (serve_st_serve (snd (run st dp reqs)) dp (q_meth q) (q_body q)) as E.
+  pose proof (serve_st_state (snd (run st dp reqs)) dp (q_meth q) (q_body q)) as T.
+  destruct (serve_st (snd (run st dp reqs)) dp (q_meth q) (q_body q)) as [r st1].
+  cbn [fst snd] in *. subst r. rewrite S in T. split; [exact T|].
+  unfold meter_after. rewrite fold_left_app. cbn [fold_left]. now rewrite W.
+Qed.
+
+(* an accepted request determines the meter and the cached slice info on its own *)
+Lemma c19_accepted_overrides (st : state) (dp : datapath) (reqs : list request) (meth : string) (d : doc)
+      (m : list write) :
+  meth = "PUT"%string \/ meth = "POST"%string ->
+  snd (run st dp (reqs ++ [Req meth (Decoded d)])) = Some (slice_info_of d) /\
+  (add_slice_info dp (slice_info_of d) <> [] ->
+   meter_after m (fst (run st dp (reqs ++ [Req meth (Decoded d)]))) = add_slice_info dp (slice_info_of d)).
+Proof.
+  intros H. rewrite run_app. cbn [fst snd run q_meth q_body].
+  pose proof (serve_st_serve (snd (run st dp reqs)) dp meth (Decoded d)) as E.
+  pose proof (serve_st_state (snd (run st dp reqs)) dp meth (Decoded d)) as T.
+  destruct (serve_st (snd (run st dp reqs)) dp meth (Decoded d)) as [r st1].
+  cbn [fst snd] in *. subst r. rewrite serve_decoded in * by assumption. cbn [r_stored] in T.
+  split; [exact T|]. intros NE.
+  unfold meter_after. rewrite fold_left_app. cbn [fold_left r_writes].
+  destruct (add_slice_info dp (slice_info_of d)); [contradiction|reflexivity].
 Qed.
